@@ -1,18 +1,48 @@
 (** C30 — user-chosen resource names cannot break the page.
-    FULL STATEMENT (refuted on the pinned tree, see c30_raw_name_refuted):
-      forall n rest, good_rest rest -> lex1 (47 :: n ++ rest) = (TName n, rest)
-    i.e. every name written at a name-emission site reads back.  Proved: for every regular name;
-    for every name accepted by validate_pdf_resource_name (so the six gated entry points can
-    only write names that read back, or reject); for every name under #XX escaping (the shape
-    of the repair, already used by the incremental writer).  The content-stream tokenizer
-    (parser/content.rs) is observed by the harness, not modelled. *)
+    FULL STATEMENT (refuted before fix_name_escape, see c30_raw_name_refuted_pinned; PROVED for the
+    repaired writer as c30_name_roundtrip + c30_content_name_roundtrip):
+      forall n rest, bytes_ok n = true -> good_rest rest -> lex1 (47 :: esc_iso n ++ rest) = (TName n, rest)
+    i.e. every name written at a name-emission site (escape_pdf_name, #XX escaping) reads back as the
+    same bytes — in the resource dictionary (object lexer, C09's model) and in the content stream
+    (ContentTokenizer::read_name/decode_name, C21's model).  At the level of Rust Strings this gives
+    "reads back as the same name" for every ASCII name — white space, delimiters, '#', controls
+    included (c30_image_ascii_reads_back, c30_form_ascii_never_broken).  What remains open is the
+    READER's one-char-per-byte decoding of non-ASCII names (c30_nonascii_refuted, finding
+    C30-name-nonascii). *)
 From OxVerif Require Import Base.Util C09.Model C09.Tokens C09.FracSweep C09.Proofs C30.Model C30.Proofs.
+From OxVerif Require C21.Tok C21.Model C21.Lexemes.
 
-Theorem c30_name_roundtrip : forall n rest, regular_name n = true -> good_rest rest ->
-  lex1 (47 :: n ++ rest) = (TName n, rest).
-Proof. exact lex1_name. Qed.
-Check c30_name_roundtrip : forall n rest, regular_name n = true -> good_rest rest -> lex1 (47 :: n ++ rest) = (TName n, rest).
+Theorem c30_name_roundtrip : forall n rest, bytes_ok n = true -> good_rest rest ->
+  lex1 (47 :: esc_iso n ++ rest) = (TName n, rest).
+Proof. exact name_roundtrip. Qed.
+Check c30_name_roundtrip : forall n rest, bytes_ok n = true -> good_rest rest -> lex1 (47 :: esc_iso n ++ rest) = (TName n, rest).
 Print Assumptions c30_name_roundtrip.
+
+Theorem c30_content_name_roundtrip : forall n rest, bytes_ok n = true -> C21.Lexemes.delim_follows rest ->
+  Tok.scan_name (esc_iso n ++ rest) = (esc_iso n, rest) /\ Tok.decode_name (esc_iso n) = Some n.
+Proof. exact content_name_roundtrip. Qed.
+Check c30_content_name_roundtrip : forall n rest, bytes_ok n = true -> C21.Lexemes.delim_follows rest ->
+  Tok.scan_name (esc_iso n ++ rest) = (esc_iso n, rest) /\ Tok.decode_name (esc_iso n) = Some n.
+Print Assumptions c30_content_name_roundtrip.
+
+(** the two packages' escaper models are one function *)
+Theorem c30_escaper_models_agree : forall n, C21.Model.esc_name n = esc_iso n.
+Proof. exact esc_same. Qed.
+Check c30_escaper_models_agree : forall n, C21.Model.esc_name n = esc_iso n.
+Print Assumptions c30_escaper_models_agree.
+
+(** String level: an ungated entry point (images) given ANY ASCII name reads back with that name, as the
+    dictionary key and as the Do operand *)
+Theorem c30_image_ascii_reads_back : forall n, ascii_name n = true -> predicted EImage n = 0.
+Proof. exact image_ascii_reads_back. Qed.
+Check c30_image_ascii_reads_back : forall n, ascii_name n = true -> predicted EImage n = 0.
+Print Assumptions c30_image_ascii_reads_back.
+
+(** a gated entry point either rejects or writes a name that reads back *)
+Theorem c30_form_ascii_never_broken : forall n, ascii_name n = true -> predicted EForm n <> 2.
+Proof. exact form_ascii_never_broken. Qed.
+Check c30_form_ascii_never_broken : forall n, ascii_name n = true -> predicted EForm n <> 2.
+Print Assumptions c30_form_ascii_never_broken.
 
 Theorem c30_validator_implies_regular : forall n, valid_resource_name n = true -> regular_name n = true.
 Proof. exact valid_regular. Qed.
@@ -24,23 +54,35 @@ Proof. exact valid_content_regular. Qed.
 Check c30_validator_implies_content_regular : forall n, valid_resource_name n = true -> content_regular_name n = true.
 Print Assumptions c30_validator_implies_content_regular.
 
-Theorem c30_gated_name_reads_back : forall n rest, valid_resource_name n = true -> good_rest rest ->
-  lex1 (47 :: n ++ rest) = (TName n, rest).
+Theorem c30_gated_name_reads_back : forall n rest, valid_resource_name n = true -> bytes_ok n = true -> good_rest rest ->
+  lex1 (47 :: esc_iso n ++ rest) = (TName n, rest).
 Proof. exact gated_name_reads_back. Qed.
-Check c30_gated_name_reads_back : forall n rest, valid_resource_name n = true -> good_rest rest -> lex1 (47 :: n ++ rest) = (TName n, rest).
+Check c30_gated_name_reads_back : forall n rest, valid_resource_name n = true -> bytes_ok n = true -> good_rest rest -> lex1 (47 :: esc_iso n ++ rest) = (TName n, rest).
 Print Assumptions c30_gated_name_reads_back.
 
-Theorem c30_escaped_name_roundtrip : forall n rest, bytes_ok n = true -> good_rest rest ->
-  lex1 (47 :: esc_name n ++ rest) = (TName n, rest).
-Proof. exact lex_esc_name. Qed.
-Check c30_escaped_name_roundtrip : forall n rest, bytes_ok n = true -> good_rest rest -> lex1 (47 :: esc_name n ++ rest) = (TName n, rest).
-Print Assumptions c30_escaped_name_roundtrip.
+(** record about the writer BEFORE fix_name_escape (finding C30-name-raw, fixed), and the same witness after *)
+Theorem c30_raw_name_refuted_pinned : exists n, lex1 (47 :: n ++ [32]) <> (TName n, [32])
+                                   /\ parse (ser raw_name (ODict [(n, ORef 5 0)])) = None
+                                   /\ predicted_pinned EImage n = 2
+                                   /\ lex1 (47 :: esc_iso n ++ [32]) = (TName n, [32])
+                                   /\ parse (ser esc_iso (ODict [(n, ORef 5 0)])) = Some (PDict [(n, PRef 5 0)])
+                                   /\ predicted EImage n = 0.
+Proof. exact raw_name_refuted_pinned. Qed.
+Check c30_raw_name_refuted_pinned : exists n, lex1 (47 :: n ++ [32]) <> (TName n, [32])
+  /\ parse (ser raw_name (ODict [(n, ORef 5 0)])) = None /\ predicted_pinned EImage n = 2
+  /\ lex1 (47 :: esc_iso n ++ [32]) = (TName n, [32])
+  /\ parse (ser esc_iso (ODict [(n, ORef 5 0)])) = Some (PDict [(n, PRef 5 0)]) /\ predicted EImage n = 0.
+Print Assumptions c30_raw_name_refuted_pinned.
 
-Theorem c30_raw_name_refuted : exists n, lex1 (47 :: n ++ [32]) <> (TName n, [32])
-                                   /\ parse (ser raw_name (ODict [(n, ORef 5 0)])) = None.
-Proof. exact raw_name_refuted. Qed.
-Check c30_raw_name_refuted : exists n, lex1 (47 :: n ++ [32]) <> (TName n, [32]) /\ parse (ser raw_name (ODict [(n, ORef 5 0)])) = None.
-Print Assumptions c30_raw_name_refuted.
+(** what remains open (C30-name-nonascii): "é" comes back as the key "Ã©" although the Do operand is "é" *)
+Theorem c30_nonascii_refuted : exists n, bytes_ok n = true /\ Tok.utf8_valid n = true /\ ascii_name n = false
+  /\ key_back n = Some [195; 131; 194; 169] /\ operand_back n = Some n
+  /\ predicted EImage n = 2 /\ predicted EForm n = 2 /\ n = [195; 169].
+Proof. exact nonascii_refuted. Qed.
+Check c30_nonascii_refuted : exists n, bytes_ok n = true /\ Tok.utf8_valid n = true /\ ascii_name n = false
+  /\ key_back n = Some [195; 131; 194; 169] /\ operand_back n = Some n
+  /\ predicted EImage n = 2 /\ predicted EForm n = 2 /\ n = [195; 169].
+Print Assumptions c30_nonascii_refuted.
 
 (** pages channel: the Coq judgement is exactly "every name resolves, on its page, to the resource registered there" *)
 Theorem c30_pages_judgement_sound : forall c, pages_code c = 0 <->
@@ -50,5 +92,8 @@ Check c30_pages_judgement_sound : forall c, pages_code c = 0 <-> forall pg n e f
 Print Assumptions c30_pages_judgement_sound.
 
 Example c30_nonvacuous : valid_resource_name (b "Im{1") = false /\ valid_resource_name (b "Fm0+x") = true
-                          /\ predicted EImage (b "My Image") = 2 /\ predicted EForm (b "My Image") = 1.
+                          /\ predicted EImage (b "My Image") = 0 /\ predicted EForm (b "My Image") = 1
+                          /\ predicted EImage (b "A#20") = 0 /\ predicted EImage (b "Im{1}") = 0
+                          /\ predicted EImage [110; 0; 9; 10; 12; 13; 37; 40; 41; 47; 60; 62; 91; 93; 127] = 0
+                          /\ predicted_pinned EImage (b "My Image") = 2.
 Proof. exact gate_nonvacuous. Qed.
